@@ -669,7 +669,16 @@ ASSUMPTIONS = [
     "C16: theorems are over an exact ordered field; with IEEE doubles node positions are hit only up to rounding - the repaired "
     "code absorbs that with a tolerance of 1e-9 spacing, the correspondence runs the same comparisons at Float",
     "C16: the branch `np.isnan(value_to_add) -> 0.0` is only reachable with a NaN kernel value or non-finite quantity; "
-    "after the repair a NaN kernel raises (model: none); non-finite quantities are outside the generated domain",
+    "after the repair a NaN kernel raises (model: none); non-finite quantities are outside the generated domain",    "C16 tie T: the translator (harness/translate/smear.py) is trusted to render Python faithfully; beyond plain statement-by-"
+    "statement compilation it (a) keeps pure locals symbolic, (b) writes binary + and * of two numbers in one canonical operand "
+    "order (bit-for-bit commutative in IEEE arithmetic), (c) renders three directly nested range loops as the np.ndindex fold over "
+    "the same triples, (d) renders a float literal as the ratio of two naturals < 2^53 read off its decimal form, (e) treats the "
+    "arguments of multivariate_normal(...) / .pdf(...) and locals feeding only them as opaque: every .pdf call takes the next "
+    "recorded value of the particle's table; the generated function is itself run at Float against the real code (gsmear)",
+    "C16 tie T: gen_eq_model is over an ordered field with isnan constantly false (there is no NaN in a field); what the code does "
+    "on NaN coordinates / quantities / momenta / kernel values (raise ValueError) is only compared at Float; unknown quantity or "
+    "kernel names and a negative round() are outside the hypotheses (the generated function answers err there, compared at Float "
+    "when generated); the object must be one built by the constructor (derived attributes as __init__ computes them)",
 ]
 
 
